@@ -627,6 +627,17 @@ class Exec:
             return outs
         return self.with_value(s.value, st, k)
     def s_AugAssign(self, s, st):
+        # `x |= y`, `x &= y`, `x -= y` on a set mutate the object in place (every alias sees the change)
+        if isinstance(s.op, (ast.BitOr, ast.BitAnd, ast.Sub)):
+            try: cur = self.ev(self.target_as_expr(s.target), st.fork())
+            except Unsupported: cur = None
+            finally: self.pending_raise = []
+            if isinstance(cur, VSet):
+                meth = {ast.BitOr: 'update', ast.BitAnd: 'intersection_update', ast.Sub: 'difference_update'}[type(s.op)]
+                def k(v, s2):
+                    tgt = self.ev(self.target_as_expr(s.target), s2)
+                    self.set_method(s2, tgt, meth, [v]); return [('fall', None, s2)]
+                return self.with_value(s.value, st, k)
         bin_ = ast.BinOp(left=self.target_as_expr(s.target), op=s.op, right=s.value)
         return self.with_value(bin_, st, lambda v, s2: self.assign(s.target, v, s2))
     def target_as_expr(self, t):
